@@ -573,6 +573,8 @@ func runC06(c *Ctx) {
 	R.Require("E6.reply-table", 28, "")
 	R.Require("E6.echo", 4, "")
 	R.Require("S.serial-per-write", 3, "")
+	c.serialSequenceRule("E6.serial-sequence")
+	R.Require("E6.serial-sequence", 2, "")
 	R.Require("S.single-consumer", 4, "")
 	R.Explain = "Structural necessary conditions of 'one correctly correlated reply per request': the registry's reply table equals the standard's; each reply body echoes the request's serial / ID / result / auth code / multimedia ID (symbolic values compared by identity); " +
 		"every frame-writing function draws exactly one serial, stores it into the request's own header before Encode, writes Encode's result, and never draws a serial without writing; one consumer of the message channel, all writes in the writer role; unsupported IDs are neither forwarded nor answered; handler objects are per connection. " +
